@@ -439,3 +439,191 @@ def run_labelorder(chk, F, rid="R-LABELORDER"):
            "XMLReader::location parses the labels of a location in document order, but proc_location pops `%s` first: a "
            "location that lists its exponentialrate label before its invariant label gets them exchanged (invariant "
            "`3`, rate `x <= 5`)" % (order[0] if order else "?"), "%s:%s" % (loc["file"], loc["line"]))
+
+
+# --------------------------------------------------------------------------------------------- R-NODROP
+# what counts as putting something into the document, for the elements C04 names
+_DOC_ADDERS = ("add_instance", "add_LSC_instance", "add_process", "add_template", "add_dynamic_template")
+_OWNERS = ("currentTemplate", "currentEdge")
+_REPORTS = ("handle_error", "handleError")
+# an `if` without else that skips the attachment silently, confirmed by reading: function -> (atoms of its condition,
+# the sibling callback that has already reported the error for the same atoms, why)
+NODROP_PARTNER = {
+    "instantiation_end": (("resolve", "INSTANCE"), "instantiation_begin",
+                          "`$Not_a_template` is reported by instantiation_begin for the same name; _end only has to "
+                          "leave the stacks balanced"),
+}
+
+
+def _root_name(e):
+    e = _strip(e)
+    while isinstance(e, dict):
+        k = e.get("k")
+        if k == "member":
+            b = e.get("base")
+            if b is None or _strip(b).get("k") == "this":
+                return e.get("name"), e
+            e = _strip(b)
+        elif k == "call" and e.get("recv") is not None and e.get("ck") in ("op", "member"):
+            e = _strip(e["recv"])
+        elif k == "un" and e.get("op") == "*":
+            e = _strip(e["e"])
+        elif k == "ref":
+            return e.get("name"), e
+        else:
+            return None, None
+    return None, None
+
+
+def _doc_effect(n):
+    """Is node n an action that stores something in the document (for templates, locations, edges, selects,
+    instances and processes)?"""
+    k = n.get("k")
+    if k == "bin" and n.get("op") == "=":
+        return _root_name(n["lhs"])[0] in _OWNERS and _strip(n["lhs"]).get("k") == "member"
+    if k != "call":
+        return False
+    nm = n.get("name") or ""
+    if n.get("ck") == "op" and n.get("op") == "=" and n.get("recv") is not None:
+        return _root_name(n["recv"])[0] in _OWNERS and _strip(n["recv"]).get("k") == "member"
+    if n.get("recv") is None:
+        return False
+    r, rn = _root_name(n["recv"])
+    if r in _OWNERS and (nm.startswith("add") or nm in ("push_back", "emplace_back", "insert")):
+        return True
+    if r == "document" and nm in _DOC_ADDERS:
+        return True
+    rt = (rn or {}).get("t") or ""
+    if nm == "add_symbol" and "frame_t" in rt and (rn or {}).get("dk") in ("param", "local"):
+        return True     # a select binding added to the edge's select frame
+    if nm == "set_type" and "symbol_t" in rt and (rn or {}).get("dk") == "local":
+        return True     # urgent / committed prefix on a resolved location symbol
+    return False
+
+
+def run_nodrop(chk, F, G, rid="R-NODROP"):
+    """`nothing dropped`: a callback that stores an element (location flag, init, edge, label, select binding,
+    instance, process) may leave without storing it only on a path that reports an error - then the model is not an
+    accepted one.  A path that merely warns, or says nothing, and skips the store loses the element of a well-formed
+    model."""
+    from ..inline import expanded_fn
+    chk.rule(rid, "in every DocumentBuilder callback that stores a template / location / edge / label / select / "
+                  "instance / process element, every path from entry to exit either performs a store or reports an "
+                  "error (handle_error, throw); warnings do not excuse a skipped store.  Helpers are expanded; "
+                  "conditions are not interpreted; the one silent skip whose error is reported by the sibling _begin "
+                  "callback is listed and re-checked")
+
+    def marks(e):
+        eff = err = False
+        for n in walk(e):
+            if _doc_effect(n):
+                eff = True
+            if n.get("k") == "call" and n.get("name") in _REPORTS:
+                err = True
+        return eff, err
+
+    def apply(e, states):
+        if e is None:
+            return states
+        eff, err = marks(e)
+        return {(a or eff, b or err) for a, b in states}
+
+    def flow(s, states, fname):
+        if s is None or not states:
+            return states, set()
+        k = s.get("k")
+        if k == "block":
+            ex = set()
+            for x in s.get("s", []):
+                states, e = flow(x, states, fname)
+                ex |= e
+                if not states:
+                    break
+            return states, ex
+        if k == "inlined":
+            st, ex = flow(s.get("body"), states, fname)
+            return st | ex, set()
+        if k == "if":
+            st = states
+            if isinstance(s.get("init"), dict):
+                st = apply(s["init"], st)
+            st = apply(s["c"], st)
+            a, ea = flow(s.get("then"), st, fname)
+            if s.get("else") is not None:
+                b, eb = flow(s["else"], st, fname)
+            else:
+                b, eb = st, set()
+                p = NODROP_PARTNER.get(fname)
+                if p and all(t in short(s["c"]) for t in p[0]):
+                    b = {(x, True) for x, _ in st}      # the sibling callback has reported it (re-checked below)
+                    used.add(fname)
+            return a | b, ea | eb
+        if k in ("for", "while", "rangefor", "do"):
+            st = states
+            for key in ("init", "c", "range"):
+                if isinstance(s.get(key), dict):
+                    st = apply(s[key], st)
+            b, eb = flow(s.get("body"), st, fname)
+            return st | b, eb
+        if k == "switch":
+            st = apply(s.get("c"), states)
+            b, eb = flow(s.get("body"), st, fname)
+            return st | b, eb
+        if k in ("case", "default", "attributed", "label"):
+            return flow(s.get("s"), states, fname)
+        if k in ("return", "cret"):
+            return set(), (apply(s.get("e"), states) if s.get("e") is not None else states)
+        if k == "throw":
+            return set(), {(x, True) for x, _ in states}
+        if k == "try":
+            b, eb = flow(s.get("body"), states, fname)
+            hs = set()
+            for h in s.get("handlers", []) or []:
+                hb, he = flow(h.get("body"), states, fname)
+                hs |= hb
+                eb |= he
+            return b | hs, eb
+        if k in ("break", "continue"):
+            return states, set()
+        return apply(s, states), set()
+    n = 0
+    used = set()
+    # C04 names templates, locations, branchpoints, edges, labels, declarations and processes - not the LSC elements:
+    # callbacks that only the LSC text blocks (instance line, message, update, condition) can reach are out of scope
+    parts = driver.start_tokens(F)
+    lsc_parts = {p for p in parts if p in ("S_INSTANCE_LINE", "S_MESSAGE", "S_UPDATE", "S_CONDITION")}
+    if len(lsc_parts) != 4:
+        raise AnalysisBroken("LSC parts of xta_part_t: %s" % sorted(lsc_parts))
+    lsc, other = set(), set()
+    for part, toks in parts.items():
+        for tok in toks:
+            for r in G.rules:
+                if r.lhs == "Uppaal" and r.rhs and r.rhs[0] == tok:
+                    (lsc if part in lsc_parts else other).update(reachable_calls(G, r))
+    lsc_only = lsc - other
+    for fn in sorted(F.functions.values(), key=lambda f: (f.get("file") or "", f.get("line") or 0)):
+        if fn.get("cls") != DB or fn.get("body") is None or fn["name"] in lsc_only:
+            continue
+        x = expanded_fn(fn, F, stop=_REPORTS + ("handle_warning",))
+        if not marks(x["body"])[0]:
+            continue
+        n += 1
+        st, ex = flow(x["body"], {(False, False)}, fn["name"])
+        allp = st | ex
+        chk.ob(rid, "%s/%d" % (fn["name"], len(fn["params"])), (False, False) not in allp,
+               "%s has a path that neither stores its element in the document nor reports an error (for instance one "
+               "that only warns and returns): the element of a well-formed model is silently dropped" % fn["q"],
+               "%s:%s" % (fn["file"], fn["line"]),
+               sample="%s: paths end as %s (stored, error-reported)" % (fn["name"], sorted(allp)))
+    if n < 10:
+        raise AnalysisBroken("only %d DocumentBuilder callbacks with a store into the document found" % n)
+    for fname in sorted(used):
+        atoms, partner, why = NODROP_PARTNER[fname]
+        pf = F.fn(DB + "::" + partner)
+        ok = any(i.get("k") == "if" and all(t in short(i["c"]) for t in atoms) and
+                 any(c.get("name") in _REPORTS for c in calls(i.get("then")))
+                 for i in walk(pf["body"]))
+        chk.ob(rid, "%s|reported-by|%s" % (fname, partner), ok,
+               "%s skips its store silently when %s fails, relying on %s to have reported it - but %s no longer reports "
+               "an error under that condition" % (fname, " / ".join(atoms), partner, partner),
+               "%s:%s" % (pf["file"], pf["line"]))
